@@ -209,7 +209,8 @@ func GenRequestLane(r *RNG, rid int, o ReqOpts) Lane {
 	if strings.HasPrefix(resp.Mode, "stream") {
 		switch r.Intn(3) {
 		case 0:
-			resp.ReadSizes = []int{1 + r.Intn(100), 1 + r.Intn(20000)}
+			lo := resp.BodyLen / 300
+			resp.ReadSizes = []int{max(1+r.Intn(100), lo), max(1+r.Intn(20000), lo)}
 		case 1:
 			resp.ReadSizes = []int{16384}
 		}
